@@ -53,6 +53,9 @@ func (c *Client) SendWithSMTPClient(client *smtp.Client, messages ...*Msg) (retu
 		if message == nil {
 			continue
 		}
+		// The send error of a Msg describes its latest delivery attempt. An error of an earlier attempt
+		// must not stick to a Msg that is sent again and accepted.
+		messages[id].sendError = nil
 		if sendErr := c.sendSingleMsg(client, message); sendErr != nil {
 			messages[id].sendError = sendErr
 			errs = append(errs, sendErr)
